@@ -207,11 +207,40 @@ Fixpoint decode_fields (fl : flavour) (with_ext : bool) (kvs : list (bytes * jso
         end
   end.
 
+(** Member names beyond ASCII.  encoding/json compares names under Unicode simple case folding
+    (fold.go [foldName]): U+017F (long s, bytes C5 BF) is in the fold set of s, U+212A (Kelvin
+    sign, bytes E2 84 AA) in that of k.  jsoniter looks up [strings.ToLower(name)]: U+212A
+    lower-cases to k and U+0130 (capital I with dot, bytes C4 B0) to i; U+017F stays.  No other
+    character folds / lower-cases to an ASCII letter.  [fold_key] rewrites these characters to
+    their ASCII partners, so that [key_is] on the result is the library's comparison with an
+    ASCII field name. *)
+Fixpoint fold_key (fl : flavour) (k : bytes) : bytes :=
+  match k with
+  | [] => []
+  | c :: r =>
+      match r with
+      | c1 :: r1 =>
+          if (c =? 197) && (c1 =? 191) then
+            match fl with StdJson => 115 :: fold_key fl r1 | Jsoniter => c :: fold_key fl r end
+          else if (c =? 196) && (c1 =? 176) then
+            match fl with Jsoniter => 105 :: fold_key fl r1 | StdJson => c :: fold_key fl r end
+          else
+            match r1 with
+            | c2 :: r2 => if (c =? 226) && (c1 =? 132) && (c2 =? 170) then 107 :: fold_key fl r2 else c :: fold_key fl r
+            | [] => c :: fold_key fl r
+            end
+      | [] => [c]
+      end
+  end.
+
+Definition fold_members (fl : flavour) (kvs : list (bytes * json)) : list (bytes * json) :=
+  map (fun kv => (fold_key fl (fst kv), snd kv)) kvs.
+
 (** [null] leaves the zero struct; anything but an object or [null] is a type error *)
 Definition decode_struct (fl : flavour) (with_ext : bool) (j : json) : option body :=
   match j with
   | JNull => Some zero_body
-  | JObj kvs => decode_fields fl with_ext kvs zero_body
+  | JObj kvs => decode_fields fl with_ext (fold_members fl kvs) zero_body
   | _ => None
   end.
 
